@@ -25,12 +25,14 @@ theorem fstree_contained (base key : Path) (chk : Bool) (dst : Path) (hb : isAbs
     split at h
     · cases h
     · rename_i hc
-      cases h
-      refine ⟨?_, resolve_join2 hb key⟩
-      by_cases hp : hasPrefix (join2 base key) (base ++ [47]) = true
-      · exact inside_join2_of_hasPrefix hb key hp
-      · simp [hp] at hc
-        rw [hc.2]; exact inside_refl hb
+      split at h
+      · cases h
+      · cases h
+        refine ⟨?_, resolve_join2 hb key⟩
+        by_cases hp : hasPrefix (join2 base key) (base ++ [47]) = true
+        · exact inside_join2_of_hasPrefix hb key hp
+        · simp [hp] at hc
+          rw [hc.2]; exact inside_refl hb
 
 /-- A key that would leave the base directory is rejected with an error (no path is produced, so nothing is accessed). -/
 theorem fstree_rejects_before_access (base key : Path) (chk : Bool) (hb : isAbs base = true)
@@ -42,16 +44,47 @@ theorem fstree_rejects_before_access (base key : Path) (chk : Bool) (hb : isAbs 
     have := fstree_contained base key chk dst hb h
     exact absurd (this.2 ▸ this.1.2) hesc
 
-/-- The check does not over-reject: every non-empty key that stays strictly below a (clean) base path is accepted. -/
-theorem fstree_accepts_inside (base key : Path) (chk : Bool) (hb : isAbs base = true) (hc : clean base = base)
-    (hroot : base ≠ [47]) (hk : key ≠ []) (x : Path) (xs : List Path)
-    (hin : resolveFrom (resolve base) key = resolve base ++ x :: xs) :
-    buildFilePath base key chk = .ok (join2 base key) := by
-  have hlen : ¬ key.length < 1 := by
-    cases key with
-    | nil => exact absurd rfl hk
+/-- The check does not over-reject: every clean relative key (proper names joined by `/`) is accepted below a
+    clean base path, and the file is literally `base/key`. -/
+theorem fstree_accepts_inside (base : Path) (chk : Bool) (hb : isAbs base = true) (hc : clean base = base)
+    (hroot : base ≠ [47]) (x : Path) (xs : List Path) (hn : ∀ s ∈ x :: xs, Normal s) :
+    buildFilePath base (joinSep (x :: xs)) chk = .ok (base ++ 47 :: joinSep (x :: xs)) := by
+  have hin : resolveFrom (resolve base) (joinSep (x :: xs)) = resolve base ++ x :: xs := by
+    unfold resolveFrom
+    rw [splitSep_joinSep (by simp) (fun s hs => normal_not_mem (hn s hs)),
+      foldl_stepSeg_benign (fun s hs => Or.inr (hn s hs))]
+    congr 1
+    exact List.filter_eq_self.mpr (fun s hs => nonE_of_ne (hn s hs).1)
+  have hbase : base = 47 :: joinSep (resolve base) := by rw [← clean_abs hb, hc]
+  have hne : resolve base ≠ [] := by
+    intro e; rw [e] at hbase; exact hroot (by simpa [joinSep] using hbase)
+  have hj : join2 base (joinSep (x :: xs)) = base ++ 47 :: joinSep (x :: xs) := by
+    rw [join2_abs hb, clean_abs (isAbs_append hb _), resolve_append_sep, hin, joinSep_append hne]
+    conv => rhs; rw [hbase]
+    simp
+  have hk : (joinSep (x :: xs)) ≠ [] := joinSep_ne_nil (by simp) hn
+  have hlen : ¬ (joinSep (x :: xs)).length < 1 := by
+    cases hj' : joinSep (x :: xs) with
+    | nil => exact absurd hj' hk
     | cons _ _ => simp
-  simp [buildFilePath, hlen, hasPrefix_join2_of_strict hb hc hroot hin]
+  have hpre := hasPrefix_join2_of_strict hb hc hroot hin
+  rw [hj] at hpre
+  simp [buildFilePath, hlen, hpre, hj]
+
+/-- An accepted record key names exactly the file `base/key`: different keys, different files. -/
+theorem fstree_key_is_literal_path (base key dst : Path) (h : buildFilePath base key true = .ok dst) :
+    dst = base ++ 47 :: key := by
+  unfold buildFilePath at h
+  split at h
+  · cases h
+  · dsimp only at h
+    split at h
+    · cases h
+    · split at h
+      · cases h
+      · rename_i hcl
+        cases h
+        simpa using hcl
 
 /-- Record keys (Get / Put / Delete) never address the base directory itself: the file is strictly below it. -/
 theorem fstree_key_strictly_inside (base key dst : Path) (hb : isAbs base = true)
@@ -63,10 +96,12 @@ theorem fstree_key_strictly_inside (base key dst : Path) (hb : isAbs base = true
     split at h
     · cases h
     · rename_i hc
-      cases h
-      simp at hc
-      rw [join2_abs hb] at hc ⊢
-      exact strictlyInside_of_clean_hasPrefix (isAbs_append hb _) (ne_nil_of_isAbs hb) hc
+      split at h
+      · cases h
+      · cases h
+        simp at hc
+        rw [join2_abs hb] at hc ⊢
+        exact strictlyInside_of_clean_hasPrefix (isAbs_append hb _) (ne_nil_of_isAbs hb) hc
 
 /-- The directory `Query` walks is inside the base path — for every query prefix and **every** answer of
     `os.Stat` (whatever exists or does not exist below, at, or around the base path). -/
@@ -509,8 +544,11 @@ example : buildFilePath (B "/a/root") (B "../root-other/evil") true = .error .in
 example : buildFilePath (B "/a/root") (B "d/../../rootx") true = .error .integrity := by decide
 example : buildFilePath (B "/a/root") (B ".") true = .error .integrity := by decide
 example : buildFilePath (B "/a/root") (B "") true = .error .tooShort := by decide
-example : buildFilePath (B "/a/root") (B "d/../x//y/.") true = .ok (B "/a/root/x/y") := by decide
-example : buildFilePath (B "/a/root") (B "../root/k") true = .ok (B "/a/root/k") := by decide
+example : buildFilePath (B "/a/root") (B "d/../x//y/.") true = .error .unclean := by decide
+example : buildFilePath (B "/a/root") (B "../root/k") true = .error .unclean := by decide
+example : buildFilePath (B "/a/root") (B "x/y") true = .ok (B "/a/root/x/y") := by decide
+example : buildFilePath (B "/a/root") (B "d/../x//y/.") false = .ok (B "/a/root/x/y") := by decide
+example : buildFilePath (B "/a/root") (B "a/") true = .error .unclean := by decide
 example : buildFilePath (B "/a/root") (B "") false = .ok (B "/a/root") := by decide
 example : queryWalkRoot (B "/a/root") (B "d/b") (fun p => if p = B "/a/root/d/b" then .file else .dir) = .ok (some (B "/a/root/d")) := by decide
 example : queryWalkRoot (B "/a/root") (B "../root-other") (fun _ => .dir) = .error .integrity := by decide
@@ -523,8 +561,9 @@ example : queryWalkRoot (B "/a/root") (B "") (fun _ => .absent) = .ok none := by
 example : queryWalkRoot (B "/a/root") (B "../root") (fun _ => .file) = .ok none := by decide
 example : queryWalkRoot (B "/a/root") (B "x") (fun _ => .absent) = .ok (some (B "/a/root")) := by decide
 example : queryWalkRoot (B "/a/root") (B "a/x") (fun _ => .other) = .error .statErr := by decide
-example : buildFilePath (B "/a/root") (B "d/../x") true = .ok (join2 (B "/a/root") (B "d/../x")) :=
-  fstree_accepts_inside (B "/a/root") (B "d/../x") true (by decide) (by decide) (by decide) (by decide) (B "x") [] (by decide)
+example : buildFilePath (B "/a/root") (joinSep [B "x", B "y"]) true = .ok (B "/a/root" ++ 47 :: joinSep [B "x", B "y"]) :=
+  fstree_accepts_inside (B "/a/root") true (by decide) (by decide) (by decide) (B "x") [B "y"]
+    (by intro s hs; simp at hs; rcases hs with rfl | rfl <;> (unfold Normal; decide))
 -- fstree on a file-system state: `/x` holds the database directory `db` (or not) and a sibling `db-old` with a record
 private def fsWith (db : Ents → Ents) : Ents :=
   Ents.dir (B "x") (db (Ents.dir (B "db-old") (Ents.file (B "secret") true Ents.nil) (Ents.file (B "note.txt") false Ents.nil))) Ents.nil
